@@ -53,3 +53,6 @@ for key,vs in seen.items():
 print("channel conformance: %d runs, %d events, %d drift" % (E.CHAN["runs"], E.CHAN["events"], len(E.CHAN["drift"])))
 for dv in E.CHAN["drift"][:8]:
     print("  DRIFT", dv)
+print("collector conformance: %d runs, %d batches, %d records, %d drift" % (E.COLL["runs"], E.COLL["cycles"], E.COLL["records"], len(E.COLL["drift"])))
+for dv in E.COLL["drift"][:8]:
+    print("  CDRIFT", dv)
